@@ -8,6 +8,7 @@ import (
 	"errors"
 	"fmt"
 	"net/http/httptest"
+	"reflect"
 	"runtime"
 	"runtime/debug"
 	"sort"
@@ -32,7 +33,9 @@ func plantDirt() {
 		p.ExecCtxPool.Put(c)
 	}
 	for i := 0; i < 24; i++ {
-		p.SchemaCtxPool.Put(&p.SchemaCtx{CanCatch: true, Exit: true, HasCaught: true, DType: "stale", Data: "stale", Test: &p.Test{IssueCode: "stale"}})
+		sc := &p.SchemaCtx{}
+		dirtyFields(reflect.ValueOf(sc).Elem(), 1) // every exported field, whatever the struct looks like now
+		p.SchemaCtxPool.Put(sc)
 		p.ZogIssuePool.Put(&p.ZogIssue{Code: "stale", Path: "stale.path", Value: "stale", Dtype: "stale", Params: map[string]any{"stale": 1}, Message: "STALE MESSAGE", Err: errors.New("stale")})
 	}
 	for i := 0; i < 4; i++ {
@@ -43,6 +46,43 @@ func plantDirt() {
 		sb := &strings.Builder{}
 		sb.WriteString("STALE")
 		p.StringBuilderPool.Put(sb)
+	}
+}
+
+// dirtyFields fills every settable field of a struct with a stale value (by reflection, so that the harness
+// keeps building and keeps planting dirt when fields are added, renamed or removed).
+func dirtyFields(v reflect.Value, depth int) {
+	for i := 0; i < v.NumField(); i++ {
+		f := v.Field(i)
+		if !f.CanSet() {
+			continue
+		}
+		switch f.Kind() {
+		case reflect.Bool:
+			f.SetBool(true)
+		case reflect.String:
+			f.SetString("stale")
+		case reflect.Int, reflect.Int32, reflect.Int64:
+			f.SetInt(77)
+		case reflect.Interface:
+			if f.Type().NumMethod() == 0 {
+				f.Set(reflect.ValueOf("stale"))
+			} else if reflect.TypeOf(errors.New("")).Implements(f.Type()) {
+				f.Set(reflect.ValueOf(errors.New("stale")))
+			}
+		case reflect.Map:
+			if f.Type().Key().Kind() == reflect.String && f.Type().Elem().Kind() == reflect.Interface {
+				m := reflect.MakeMap(f.Type())
+				m.SetMapIndex(reflect.ValueOf("stale").Convert(f.Type().Key()), reflect.ValueOf(1))
+				f.Set(m)
+			}
+		case reflect.Pointer:
+			if depth > 0 && f.Type().Elem().Kind() == reflect.Struct {
+				n := reflect.New(f.Type().Elem())
+				dirtyFields(n.Elem(), depth-1)
+				f.Set(n)
+			}
+		}
 	}
 }
 
